@@ -33,6 +33,9 @@ pub struct Case {
     /// -m for the reference-free run: 0 default, 1 -> 0, 2 -> 0.05, 3 -> 0.4, 4 -> 1
     #[serde(default)]
     pub m_sel: u8,
+    /// reference file: 0 plain, 1 gzip (one member), 2 gzip with two members (as bgzip writes)
+    #[serde(default)]
+    pub ref_gz: u8,
 }
 
 fn case_strategy(with_ref: bool) -> BoxedStrategy<Case> {
@@ -46,10 +49,10 @@ fn case_strategy(with_ref: bool) -> BoxedStrategy<Case> {
         proptest::collection::vec((any::<u16>(), proptest::collection::vec(0u8..4, 2..10)), 1..6),
         proptest::collection::vec(any::<bool>(), 1..6),
         prop::sample::select(vec![1u8, 1, 2, 3, 4, 8]),
-        (prop::bool::weighted(0.3), prop::bool::weighted(0.3), any::<bool>(), any::<bool>(), prop_oneof![3 => Just(0u8), 2 => Just(1u8), 1 => Just(2u8), 1 => Just(3u8), 1 => Just(4u8)]),
+        (prop::bool::weighted(0.3), prop::bool::weighted(0.3), any::<bool>(), any::<bool>(), prop_oneof![3 => Just(0u8), 2 => Just(1u8), 1 => Just(2u8), 1 => Just(3u8), 1 => Just(4u8)], prop_oneof![3 => Just(0u8), 1 => Just(1u8), 2 => Just(2u8)]),
     )
-        .prop_map(move |(k, n_samples, material, lead, tail, sites, orient, threads, (ref_is_sample, ref_rc, ref_wrap, m04, m_sel))| Case {
-            k, n_samples, material, lead, tail, sites, orient, threads, with_ref, ref_is_sample, ref_rc, ref_wrap, m04, m_sel,
+        .prop_map(move |(k, n_samples, material, lead, tail, sites, orient, threads, (ref_is_sample, ref_rc, ref_wrap, m04, m_sel, ref_gz))| Case {
+            k, n_samples, material, lead, tail, sites, orient, threads, with_ref, ref_is_sample, ref_rc, ref_wrap, m04, m_sel, ref_gz,
         })
         .boxed()
 }
@@ -116,7 +119,7 @@ pub fn materialise(c: &Case) -> Result<Mat, String> {
     let samples = fwd
         .iter()
         .enumerate()
-        .map(|(j, s)| (format!("smp{j}"), vec![if c.orient[j % c.orient.len()] { model::revcomp(s) } else { s.clone() }]))
+        .map(|(j, s)| (format!("{}{j}", ["m", "c", "x", "a", "t", "g", "p", "e", "z", "k"][j % 10]), vec![if c.orient[j % c.orient.len()] { model::revcomp(s) } else { s.clone() }]))
         .collect();
     Ok(Mat { ancestor: anc, sites, fwd, samples })
 }
@@ -280,8 +283,29 @@ fn check_ref(c: &Case, ctx: &Ctx) -> Outcome {
     let r: Result<(usize, usize), Outcome> = (|| {
         must_ok(&build(ctx, &dir, "x", &m.samples, c.k, true, 1), "ska build")?;
         cli::write_fasta(&dir.join("ref.fa"), &["refname".to_string()], &[rseq.clone()], if c.ref_wrap { Some(60) } else { None });
+        let ref_file = match c.ref_gz % 3 {
+            0 => "ref.fa",
+            g => {
+                // gzip: one member, or two members split in the middle of the file
+                use flate2::write::GzEncoder;
+                use std::io::Write;
+                let data = std::fs::read(dir.join("ref.fa")).map_err(|e| Outcome::Infra(e.to_string()))?;
+                let cut = if g == 2 { data.len() / 2 } else { data.len() };
+                let mut out = Vec::new();
+                for part in [&data[..cut], &data[cut..]] {
+                    if part.is_empty() {
+                        continue;
+                    }
+                    let mut e = GzEncoder::new(Vec::new(), flate2::Compression::default());
+                    e.write_all(part).map_err(|e| Outcome::Infra(e.to_string()))?;
+                    out.extend(e.finish().map_err(|e| Outcome::Infra(e.to_string()))?);
+                }
+                std::fs::write(dir.join("ref.fa.gz"), out).map_err(|e| Outcome::Infra(e.to_string()))?;
+                "ref.fa.gz"
+            }
+        };
         let ts = c.threads.to_string();
-        let mut args = vec!["lo", "x.skf", "out", "-r", "ref.fa", "--threads", &ts];
+        let mut args = vec!["lo", "x.skf", "out", "-r", ref_file, "--threads", &ts];
         if c.m04 {
             args.push("-m");
             args.push("0.4");
@@ -371,6 +395,8 @@ fn check_ref(c: &Case, ctx: &Ctx) -> Outcome {
             if called > 0 { cl.push("some_called"); }
             if c.ref_rc { cl.push("reference_reverse_complemented"); }
             if c.ref_is_sample { cl.push("reference_is_a_sample"); }
+            if c.ref_gz % 3 == 1 { cl.push("reference_gzip"); }
+            if c.ref_gz % 3 == 2 { cl.push("reference_gzip_two_members"); }
             if m.sites.iter().any(|(_, a)| { let mut x = a.clone(); x.sort(); x.dedup(); x.len() >= 3 }) { cl.push("multi_allelic"); }
             pass(called > 0, key_of(&(c.k, &m.fwd, c.ref_rc, c.ref_is_sample, c.m04)), cl)
         }
@@ -475,7 +501,7 @@ fn check_messy(c: &MessyCase, ctx: &Ctx) -> Outcome {
 }
 
 const RULE_A: &str = "generated: ancestor with unique (k-1)-mers on both strands (greedy construction, re-checked over the union of all derived samples; rejections counted), 1-5 substitutions >= 2k apart and >= k from the ends, 2-4 alleles over 3-10 samples with >= 2 alleles present, each sample randomly reverse-complemented, k in 7..33, threads 1-8, -m default / 0 / 0.05 / 0.4 / 1 (no sample is missing at such a site, so every allowed fraction must report it). Oracle: multiset of SNP-alignment columns up to complement == planted columns; names in order; equal lengths; ska lo must succeed. Every accepted case non-trivial.";
-const RULE_B: &str = "same construction with a reference (-r; k >= 15; reference = ancestor or a sample, 30% reverse-complemented, wrapped or not, -m default or 0.4). Oracle: every VCF record at a planted coordinate (in reference coordinates), REF == reference base, ALT distinct, genotypes decode to the true alleles ('.' allowed), no position twice; pseudo-genomes of reference length, true base (or '-'/N) at called positions and the reference base elsewhere; snps.fas has one column per record. Non-trivial: >= 1 SNP called.";
+const RULE_B: &str = "same construction with a reference (-r; k >= 15; reference = ancestor or a sample, 30% reverse-complemented, wrapped or not, plain / gzip / two-member gzip file, -m default or 0.4). A planted SNP that is not reported must not be due to a truncated reference: pseudo-genomes must have the full reference length. Oracle: every VCF record at a planted coordinate (in reference coordinates), REF == reference base, ALT distinct, genotypes decode to the true alleles ('.' allowed), no position twice; pseudo-genomes of reference length, true base (or '-'/N) at called positions and the reference base elsewhere; snps.fas has one column per record. Non-trivial: >= 1 SNP called.";
 const RULE_C: &str = "generated: 3-8 genomes derived from a random 120-400 base ancestor by 0-7 random substitutions/indels each (close variants allowed), random reverse complement, 1 in 7 truncated, -m 0..0.5, threads 1/2/4. Oracle (well-formedness only): equal lengths, every column >= 2 distinct A/C/G/T, missing fraction <= m (+1e-6); exit 1 'no entry node' is a legitimate refusal. Non-trivial: >= 1 column.";
 
 fn show(c: &Case) -> serde_json::Value {
